@@ -64,13 +64,14 @@ let show_rx = function
 
 let model fs = match fs with
   | "aa" :: cs :: msg :: rest -> show_tx (send_bdat (nat_of_int (be_int cs)) (bytes_of_hex msg) (nok_of rest))
-  | "bb" :: cfg :: cmds :: stream :: rest when String.length cfg = 16 ->
+  | "bb" :: cfg :: cmds :: stream :: rest when String.length cfg = 16 && List.length (ints_of_hex cmds) mod 5 = 0 ->
       let (config, cm, st, cuts, rf) = rx_case cfg cmds stream (match rest with c :: _ -> c | [] -> "-") in
       show_rx (rx_session config cm st cuts rf)
   | _ -> "BADCASE"
 
 (* the property quantifies over chunk sizes from the minimum that fits a header (16) *)
 let spec fs obs = match fs, obs with
+  | _, ["BADCASE"] -> "BADCASE"
   | "aa" :: cs :: _, _ when be_int cs < 16 -> "pre"
   | "aa" :: cs :: msg :: _, "OK" :: rest ->
       let rec split acc = function
